@@ -210,7 +210,41 @@ def m4(run: Run, prog: Program, rule="M4", file_part="core/network.py"):
     return n
 
 
+def m5(run: Run, prog: Program):
+    """Pair-count normalisers: a measure normalised by a number of pairs
+    D*(D-1) must have both factors in the denominator.  `x / D * (D - 1)`
+    divides by D and *multiplies* by D-1 (operator precedence); the shape
+    "divide by D, then multiply by D +- constant" has no other reading in the
+    measure code, so every instance is reported."""
+    n = 0
+    for f in prog.functions():
+        if "/core/" not in f.module.relpath:
+            continue
+        for e in ast.walk(f.node):
+            if not (isinstance(e, ast.BinOp) and isinstance(e.op, ast.Div)):
+                continue
+            n += 1
+        for e in ast.walk(f.node):
+            if isinstance(e, ast.BinOp) and isinstance(e.op, ast.Mult) and \
+                    isinstance(e.left, ast.BinOp) and isinstance(e.left.op, ast.Div):
+                D, R = e.left.right, e.right
+                d = ast.unparse(D)
+                if isinstance(R, ast.BinOp) and isinstance(R.op, (ast.Sub, ast.Add)) and \
+                        ast.unparse(R.left) == d and isinstance(R.right, ast.Constant):
+                    run.oblige("M5", f"{f.qualname}@{ast.unparse(e)[:40]}", False,
+                               sample={"where": f"{f.module.relpath}:{e.lineno}"})
+                    run.add("M5", f"{f.qualname}/split-normaliser/{d}",
+                            f"{f.module.relpath}:{e.lineno}",
+                            f"{f.qualname}: `{ast.unparse(e)}` divides by `{d}` and then "
+                            f"multiplies by `{ast.unparse(R)}`; a normalisation by the "
+                            f"number of pairs needs `/ ({d} * ({ast.unparse(R)}))`")
+    run.count("M5", n)
+    run.floor("M5 divisions scanned (core)", n, 100)
+
+
 def check(run: Run, prog: Program, cy: CyProgram, sites):
+    run.rule("M5", "pair-count normalisers keep both factors in the denominator "
+             "(no `x / D * (D - 1)`)")
     run.rule("M1", "clique-counting kernels test every pair of enumerated neighbour "
              "roles and normalise by the matching falling factorial")
     run.rule("M2", "compiled kernels used by core/network.py are called with the "
@@ -236,5 +270,6 @@ def check(run: Run, prog: Program, cy: CyProgram, sites):
             run.add("M2", f"local/{f.name}/{name}", f"{f.module.relpath}:{detail['line']}",
                     f"kernel {f.name} declares `{name}` as {detail['declared']} but "
                     f"allocates it with {detail['init']} ({verdict})")
+    m5(run, prog)
     nm4 = m4(run, prog, "M4", "core/network.py")
     run.floor("override pairs checked (repo-wide)", nm4, 100)
